@@ -253,6 +253,10 @@ def run(ctx):
     res = tlc.run("MC_Diagrams", "MC_Diagrams_C12", tag=ctx.pid + "_det", timeout_s=1500)
     ctx.add_tlc("MC_Diagrams/C12", res, {"Family": "C12"})
     cases = res.emitted
+    # inputs with ensemble members, drawn as time series (one thin line per input, member and initialisation time)
+    rese = tlc.run("MC_Diagrams", "MC_Diagrams_C18Ens", tag=ctx.pid + "_ens", timeout_s=600)
+    ctx.add_tlc("MC_Diagrams/C18Ens", rese, {"Family": "C18Ens"})
+    cases = cases + rese.emitted
     for n, divs in par.pmap(_check_chunk, [cases[i:i + 8] for i in range(0, len(cases), 8)], chunk=1):
         ctx.evaluations += n
         for site, detail, rep in divs:
